@@ -13,6 +13,8 @@ def ob(id, entry, cases, expect, bounds, tus=TUS_AREA, mode='real', **kw):
     d.update(kw); return d
 OUT = 'outside its own range the model returns the incoming value'
 F3 = [(f, s) for f in range(3) for s in (0, 3)]
+TUS_OCE = ['c05_oceanic.cc'] + BASE + ['features/oceanic_plate_models/temperature/%s' % m for m in ('half_space_model', 'plate_model', 'plate_model_constant_age', 'interface')]
+STO = ST + ['calculate_ridge_distance_and_spreading replaced by a stub returning (spreading velocity > 0, distance >= 0); its arithmetic is C05.ridge']
 OBLIGATIONS = [
     ob('C05.area.uniformT', 'h_c05_uniform_T', F3, ['uniform temperature: the configured value combined by the declared operation', OUT, 'end'], 'all parameters, 3 area families, constant and variable depth surfaces, 4 operations'),
     ob('C05.area.adiabaticT', 'h_c05_adiabatic_T', F3, ['adiabatic temperature: Tp*exp(alpha*g*depth/cp) with the model\'s constants', OUT, 'end'], 'as above'),
@@ -25,4 +27,8 @@ OBLIGATIONS = [
     ob('C05.area.uniformV', 'h_c05_uniform_V', F3, ['uniform raw velocity: the configured vector combined by the operation', OUT, 'end'], 'as above'),
     ob('C05.area.uniformG', 'h_c05_uniform_G', [(f, 0, k) for f in range(3) for k in (1, 2)], ['grain count is preserved', 'uniform grains: fixed grain sizes are returned as given', 'uniform grains: a negative size means equal shares summing to one',
        'uniform grains: every grain gets the configured orientation', 'grains untouched outside the range / for other compositions', 'end'], '1 listed composition, 1..2 grains (3 thorough)', cases_thorough=[(f, s, k) for f in range(3) for (s, k) in ((0, 1), (0, 2), (0, 3), (3, 1))]),
+    ob('C05.oceanic.halfspace', 'h_c05_half_space', [(0, 0), (3, 0)], ['half-space cooling: Tb + (Tt - Tb) erfc(depth / (2 sqrt(kappa age))), age = ridge distance / spreading velocity', OUT, 'end'],
+       'all parameters incl. negative bottom temperature (adiabat), constant and variable depth surfaces', tus=TUS_OCE, stubs=STO),
+    ob('C05.oceanic.plate', 'h_c05_plate_model', [(0, 0), (0, 1)], ['plate model: 100-term plate cooling series with age = ridge distance / spreading velocity', 'constant-age plate model: 100-term plate cooling series with the configured age', OUT, 'end'],
+       '100 series terms executed concretely, compared term by term (uninterpreted sin/exp/sqrt)', tus=TUS_OCE, stubs=STO + ['libm functions purely uninterpreted here (no axioms): the comparison is structural, term by term'], max_steps=3000000, libm_axioms=False),
 ]
